@@ -77,3 +77,9 @@ def gen_table(rng, n):
 def gen(rng, budget, tier):
     yield from _gen_c16(rng, budget, tier)
     yield from gen_table(rng, 60 if tier == "quick" else 3000)
+    # several servers' lines coloured at the same time, one goroutine per connection (added last)
+    yield "c16.race 8 60000"
+    yield "c16.race 12 20000"
+    if tier == "thorough":
+        for _ in range(6):
+            yield f"c16.race {rng.choice([4, 8, 16])} 200000"
